@@ -146,7 +146,7 @@ Proof.
 Qed.
 Print Assumptions C11_lifetime_covers_views_refuted_before_fix.
 
-(* F11b (confirmed on the real pass, then repaired in /repo 051ab2c): a memref that leaves a region through its
+(* F11b (confirmed on the real pass, then repaired in /repo 20eb1ea): a memref that leaves a region through its
    terminator aliases the buffer.  BEFORE the repair the analysis had nothing to follow at the terminator
    (pseudo-result recorded as not followed): `alias_followed` was false and the conclusion of
    C11_lifetime_covers_views failed.  The program (converted from the real IR by the harness) is
